@@ -271,7 +271,7 @@ class ProcessAttributeTypes(RelativeHandlerInterface):
         restrictions.min_occurs = attr.restrictions.min_occurs
         restrictions.max_occurs = attr.restrictions.max_occurs
 
-        if source.nillable:
+        if source.nillable or attr.restrictions.nillable:
             restrictions.nillable = True
 
         attr.restrictions = restrictions
